@@ -146,7 +146,10 @@ func (p *Prog) addrLocs(addr ssa.Value) (locs []Loc, root ssa.Value) {
 			}
 		}
 		return nil, a
-	case *ssa.Parameter, *ssa.FreeVar:
+	case *ssa.FreeVar:
+		// a captured variable is its own cell
+		return []Loc{a}, a
+	case *ssa.Parameter:
 		if pt, ok := a.Type().Underlying().(*types.Pointer); ok {
 			return []Loc{derefClass(pt.Elem())}, a
 		}
@@ -264,11 +267,16 @@ func (p *Prog) computeEffects() {
 					locs, root := p.instrWrites(in)
 					if len(locs) > 0 {
 						mask := rootMask(fn, root)
-						if al, ok := root.(*ssa.Alloc); ok && allocCaptured(al) {
-							mask = heapBit
-						}
 						for _, l := range locs {
-							if _, isCell := l.(*ssa.Alloc); isCell && mask == 0 {
+							if _, isCell := l.(*ssa.Alloc); isCell {
+								continue // the function's own local variable (captured or not)
+							}
+							if _, isFV := l.(*ssa.FreeVar); isFV {
+								e.addWrite(l, heapBit)
+								continue
+							}
+							if _, isAl := root.(*ssa.Alloc); isAl && mask == heapBit {
+								// field of a captured struct variable: still the function's own object
 								continue
 							}
 							e.addWrite(l, mask)
@@ -331,6 +339,12 @@ func (p *Prog) computeEffects() {
 					continue
 				}
 				for l, mask := range ce.WMask {
+					if fv, ok := l.(*ssa.FreeVar); ok {
+						// a closure's captured variable is a local of the function that created the closure
+						if fv.Parent() != nil && fv.Parent().Parent() == fn {
+							continue
+						}
+					}
 					if e.addWrite(l, p.translateMask(fn, out.Site, callee, mask)) {
 						changed = true
 					}
@@ -610,8 +624,16 @@ func (p *Prog) Killed(between []ssa.Instruction, locs map[Loc]bool, symRoots map
 				continue
 			}
 			for l, m := range p.CallWrites(x) {
-				if m != 0 && locs[l] {
+				if m == 0 {
+					continue
+				}
+				if locs[l] {
 					return in
+				}
+				if fv, ok := l.(*ssa.FreeVar); ok {
+					if al := bindingOf(fv); al != nil && locs[al] {
+						return in
+					}
 				}
 			}
 		}
@@ -764,4 +786,27 @@ func (p *Prog) addrTaken() map[*types.Var]bool {
 	}
 	p.addrTakenFields = m
 	return m
+}
+
+
+// bindingOf returns the variable cell a closure's free variable is bound to.
+func bindingOf(fv *ssa.FreeVar) ssa.Value {
+	cl := fv.Parent()
+	if cl == nil || cl.Parent() == nil {
+		return nil
+	}
+	idx := -1
+	for i, v := range cl.FreeVars {
+		if v == fv {
+			idx = i
+		}
+	}
+	for _, b := range cl.Parent().Blocks {
+		for _, in := range b.Instrs {
+			if mc, ok := in.(*ssa.MakeClosure); ok && mc.Fn == cl && idx >= 0 && idx < len(mc.Bindings) {
+				return mc.Bindings[idx]
+			}
+		}
+	}
+	return nil
 }
